@@ -536,6 +536,7 @@ pub fn render_events(w: &World) -> Vec<String> {
             Ev::Spurious => out.push(format!("{}spurious poll", ind)),
             Ev::DropSubject => out.push(format!("{}drop the subject", ind)),
             Ev::Op(o, a, b) => out.push(format!("{}group op {} ({}, {})", ind, o, a, b)),
+            Ev::Note(0xF1FA) => out.push(format!("{}poll the subject once more after its final result (probe)", ind)),
             Ev::Note(n) => out.push(format!("{}note {}", ind, n)),
         }
     }
